@@ -1,6 +1,7 @@
 /-
 `IdSet::makeFullBeforeSharing` statement by statement (`fillAllNodes`, `truncateExtras`, `leafTruncate`, `innerTruncate`:
-the non-atomic initialisation of a stack created full), with the undefined shift as an explicit outcome, and its
+the non-atomic initialisation of a stack created full; `leafTruncate` as repaired by commit 1ff5fc0, the pre-fix variant kept
+separately with the undefined shift as an explicit outcome), and its
 agreement with the closed form `Sh.full` that the invariant proof starts from.
 -/
 import SquidModel.Ipc.PageStack
@@ -13,8 +14,23 @@ def allOnes : Nat := 2 ^ 64 - 1
 def fillAllNodes (H : Nat) : Sh :=
   { size := 0, leaf := fun _ => allOnes, inner := fun l _ => (BitsPerLeaf * 2 ^ (H - 1 - l), BitsPerLeaf * 2 ^ (H - 1 - l)) }
 
-/-- `leafTruncate(pos, idsToKeep)`: `node >>= BitsPerLeaf - idsToKeep`; a shift by 64 is undefined -/
+/-- `leafTruncate(pos, idsToKeep)` (fix 1ff5fc0): `if (idsToKeep) node >>= BitsPerLeaf - idsToKeep; else node = 0;`.
+The result is `none` only if a shift by 64 or more were executed — impossible now (`leafTruncate_defined`). -/
 def leafTruncate (s : Sh) (o idsToKeep : Nat) : Option Sh :=
+  if idsToKeep ≠ 0 then
+    if BitsPerLeaf - idsToKeep ≥ 64 then none
+    else some { s with leaf := setLeaf s.leaf o (s.leaf o >>> (BitsPerLeaf - idsToKeep)) }
+  else some { s with leaf := setLeaf s.leaf o 0 }
+
+theorem leafTruncate_defined (s : Sh) (o idsToKeep : Nat) : (leafTruncate s o idsToKeep).isSome = true := by
+  unfold leafTruncate
+  split
+  · rw [if_neg (by simp only [BitsPerLeaf]; omega)]; rfl
+  · rfl
+
+/-- PRE-FIX variant (before commit 1ff5fc0): `node >>= BitsPerLeaf - idsToKeep` unconditionally; with `idsToKeep = 0` this is
+a shift of a 64-bit word by 64 = undefined behaviour (`none`) -/
+def leafTruncatePreFix (s : Sh) (o idsToKeep : Nat) : Option Sh :=
   if BitsPerLeaf - idsToKeep ≥ 64 then none
   else some { s with leaf := setLeaf s.leaf o (s.leaf o >>> (BitsPerLeaf - idsToKeep)) }
 
@@ -48,7 +64,7 @@ def truncateExtras (cap H : Nat) (s : Sh) : Option Sh :=
     let s2 := if rightLeaves > 1 then zeroLeaves s1 (cap / BitsPerLeaf + 1) (rightLeaves - 1) else s1
     some (truncateUp s2 H (cap / BitsPerLeaf) (BitsPerLeaf - cap % BitsPerLeaf))
 
-/-- `makeFullBeforeSharing` followed by `size_ = capacity` (`PageStack::PageStack` with `createFull`); `none` = undefined behaviour -/
+/-- `makeFullBeforeSharing` followed by `size_ = capacity` (`PageStack::PageStack` with `createFull`) -/
 def makeFull (cap : Nat) : Option Sh :=
   let m := measure cap
   let H := m.innerLevelCount
@@ -62,15 +78,14 @@ def sameTree (H : Nat) (a b : Sh) : Bool :=
   (List.range H).all (fun l => (List.range (2 ^ l)).all fun o => a.inner l o == b.inner l o) &&
   (List.range (2 ^ H)).all fun o => a.leaf o == b.leaf o
 
-/-- the statement-by-statement constructor and the closed form agree on the whole array, or the constructor hits the
-undefined shift exactly where `fullUB` says so -/
+/-- the statement-by-statement constructor is defined and agrees with the closed form on the whole array -/
 def ctorAgrees (cap : Nat) : Bool :=
   let H := (measure cap).innerLevelCount
   match makeFull cap with
-  | none => fullUB cap H
-  | some s => !fullUB cap H && sameTree H s (Sh.full cap H)
+  | none => false
+  | some s => sameTree H s (Sh.full cap H)
 
-/-- every capacity up to 520 (trees of height 2 to 5, all truncation shapes) -/
+/-- every capacity up to 520 (trees of height 2 to 5, all truncation shapes, including the multiples of 64) -/
 theorem ctor_agrees_small : (List.range 521).all ctorAgrees = true := by decide +kernel
 
 end SquidModel.Ipc.PageStack
